@@ -13,8 +13,8 @@ ID = "C03"
 LEVEL = "exploration"
 RULE = (
     "Hypothesis draws (network, random tree, ordered list of <=3 labels to "
-    "slice or project, traversal order in {None,dfs,surface_order,len,"
-    "table}). Oracle A: contract_stats/total_flops/total_write/max_size/"
+    "slice or project, some of them restored again, traversal order in "
+    "{None,dfs,surface_order,len,table}). Oracle A: contract_stats/total_flops/total_write/max_size/"
     "peak_size(order)/combo_cost(sum,max)/multiplicity and per-node legs, "
     "involved, size, flops equal the independent CostRef (product of dims of "
     "involved / surviving labels, x number of slices), exact integers. Oracle "
@@ -44,6 +44,8 @@ def cases(draw, max_n):
         "table": draw(st.lists(st.integers(0, 3), min_size=1, max_size=6)),
         "prefer_einsum": draw(st.booleans()),
         "aseed": draw(st.integers(0, 999)),
+        # positions (into the removal list) of labels restored again afterwards
+        "restore": draw(st.lists(st.integers(0, 3), max_size=2, unique=True)) if removed and draw(st.booleans()) else [],
     }
 
 
@@ -79,6 +81,15 @@ def run_case(spec, sub=None):
         if not ok:
             return Outcome([f"remove_ind_({ix!r}, project={p}) raised {r}"], False, ["error"])
 
+    back = []
+    for k_ in spec.get("restore", []):
+        if k_ < len(removed) and removed[k_][0] not in back:
+            back.append(removed[k_][0])
+    for ix in back:
+        ok, r = guarded(tree.restore_ind_, ix)
+        if not ok:
+            return Outcome([f"restore_ind_({ix!r}) raised {r}"], False, ["error"])
+    removed = [(ix, p) for ix, p in removed if ix not in back]
     cr = ref.CostRef(inputs, output, sizes, removed)
     order = make_order({"order": spec["order"], "table": spec["table"]})
 
@@ -220,7 +231,7 @@ def run_case(spec, sub=None):
 
     cls = gen.net_classes(net)
     nontrivial = bool(removed) or bool(cls & {"hyper", "repeat"})
-    tags = sorted(cls) + [f"order={spec['order']}", f"removed={len(removed)}"]
+    tags = sorted(cls) + [f"order={spec['order']}", f"removed={len(removed)}"] + (["restored_some"] if back else [])
     if any(p is not None for _, p in removed):
         tags.append("projected")
     if any(ix in output for ix, _ in removed):
